@@ -140,20 +140,25 @@ func (c *connEventHandler) doWritev(data ...[]byte) (int, error) {
 // avoiding write concurrently, blocking until return
 func (c *connEventHandler) write(data []byte) error {
 	written, size := 0, len(data)
+	vpo(vpConnWriteEnter, c, int64(size))
 	for written < size {
 		if atomic.LoadUint32(&c.isClose) == 1 {
+			vpo(vpConnWriteExit, c, 1)
 			return syscall.EPIPE
 		}
 		n, _, err := syscall.Syscall(syscall.SYS_WRITE, uintptr(c.fd), uintptr(unsafe.Pointer(&data[written])),
 			uintptr(size-written))
 		if err == syscall.EAGAIN {
+			vpo(vpConnWriteEAGAIN, c, int64(written))
 			<-c.onWriteReadyCh
 			continue
 		}
 		if err != syscall.Errno(0) {
+			vpo(vpConnWriteExit, c, 2)
 			return err
 		}
 		written += int(n)
+		vpo(vpConnWritePartial, c, int64(n))
 	}
 
 	return nil
@@ -189,6 +194,7 @@ func (c *connEventHandler) onReadReady() (err error) {
 			break
 		}
 
+		vpo(vpConnRead, c, int64(n))
 		c.readEndOff += int(n)
 		if c.readEndOff-c.readStartOff >= onDataThreshold {
 			if err = c.callback.onEventData(c.readBuffer[c.readStartOff:c.readEndOff], c); err != nil {
